@@ -52,6 +52,10 @@ private theorem completeValue_congr (s : SchemaD) (e e' : String → Path → Li
     | null => simp [completeValue]
     | leaf j => cases j <;> simp [completeValue]
     | obj rt => simp [completeValue]
+    | raise vs msg ext =>
+      simp only [completeValue]
+      rw [completeList_congr _ _ path (fun i v => ih (path ++ [.idx i]) v (fun rel rt sels => by
+        simpa [List.append_assoc] using he (.idx i :: rel) rt sels)) vs 0]
   | nonNull t ih =>
     intro path v he
     simp only [completeValue, ih path v he]
